@@ -292,6 +292,12 @@ def run(ctx: Ctx, tier: str) -> Result:
                     res.fail(Finding("C07.DELETE", f.qname, n, f.loc(n),
                                      "a table entry is deleted while the identity cache keeps handing out its id: a later hit on the same object "
                                      "(e.g. a watch `locals()`) yields a reference with no entry"))
+        for n in t.calls_in(f):
+            if isinstance(n.func, ast.Attribute) and n.func.attr in ("pop", "popitem", "clear", "__delitem__") and "lookup" in norm(n.func.value).lower():
+                ndel += 1
+                res.fail(Finding("C07.DELETE", f.qname, n, f.loc(n),
+                                 "`%s` removes entries from a variable table while the identity cache keeps handing out their ids: every other reference "
+                                 "to the same object (an alias, a child of a container, a watch result) is left pointing at no entry" % norm(n)[:60]))
     if ndel == 0:
         res.ok("C07.DELETE", {"no deletion from a snapshot table": True})
 
